@@ -20,6 +20,11 @@ def cases(tier):
                 cfg2 = {'scenario': 'adversarial', 'n': n, 'x': x, 'actions': ['VerifyOnly'],
                         'members': [{'m': m, 'cap': cap, 'rounds': ilog2(n * m), 'promises': [('sym' if j % 2 == pat else None) for j in range(m)], 'free_gens': True, 'ctx_elem': True}]}
                 out.append({'cfg': cfg2, 'kind': 'verifier', 'name': 'verifier n%d m%d c%d x%d promises at %s positions' % (n, m, cap, x, 'even' if pat == 0 else 'odd')})
+    # equal commitments at two positions of one aggregate: each position still has its own promise, bound at its own position
+    for (n, m, cap, x, dup) in [(8, 2, 2, 1, [[0, 1]]), (4, 4, 4, 2, [[0, 3]]), (4, 4, 4, 1, [[1, 2], [0, 3]])]:
+        cfg = {'scenario': 'adversarial', 'n': n, 'x': x,
+               'members': [{'m': m, 'cap': cap, 'rounds': ilog2(n * m), 'promises': ['sym'] * m, 'ctx_elem': True, 'dup_commitments': dup}], 'actions': ['VerifyOnly']}
+        out.append({'cfg': cfg, 'kind': 'verifier', 'name': 'verifier n%d m%d c%d x%d, equal commitments at %s' % (n, m, cap, x, dup)})
     # every member of a batch is bound to ITS OWN caller context, commitments, promises and prover messages (not to those of the first member)
     for ms in ([1, 2, 1], [2, 1]) if tier == 'quick' else ([1, 2, 1], [2, 1], [1, 1, 4, 2]):
         members = [{'m': mm, 'cap': max(ms), 'rounds': ilog2(4 * mm), 'promises': ['sym'] + [None] * (mm - 1), 'ctx_elem': True} for mm in ms]
